@@ -1,9 +1,10 @@
 ----------------------------- MODULE SubstEnum -----------------------------
-(* G1 generator for C13: writes the world (IOEnv.DESC, one JSON record) and *)
-(* the groups of SubstCases (IOEnv.OUT, ndjson of [e, ms]: an expression    *)
-(* and the maps it is paired with) and prints how many cases carry each     *)
-(* feature (vacuity guard of the driver).                                   *)
-EXTENDS SubstCases, Json, IOUtils
+(* G1 generator for C13 (run together with the T1 invariants of MCSubst):   *)
+(* writes the world (IOEnv.DESC, one JSON record) and the groups of         *)
+(* SubstCases (IOEnv.OUT, ndjson of [e, ms]: an expression and the maps it  *)
+(* is paired with) and prints how many cases carry each feature (vacuity    *)
+(* guard of the driver).                                                    *)
+EXTENDS MCSubst, Json, IOUtils
 Feats == TLCEval([i \in DOMAIN Groups |-> [j \in DOMAIN Groups[i].ms |-> Feature([e |-> Groups[i].e, m |-> Groups[i].ms[j]])]])
 Count(f) == SumRange([i \in DOMAIN Feats |-> Cardinality({j \in DOMAIN Feats[i] : Feats[i][j] = f})], 1, Len(Feats))
 Verdicts == {"accept", "reject", "either"}
@@ -12,7 +13,4 @@ ASSUME ndJsonSerialize(IOEnv.DESC, <<W>>)
 ASSUME ndJsonSerialize(IOEnv.OUT, Groups)
 ASSUME PrintT(<<"EMITTED", NCases, NShallow, Len(Groups)>>)
 ASSUME \A f \in Verdicts \X Kinds : PrintT(<<"FEATURE", f[1], f[2], Count(f)>>)
-VARIABLE dummy
-Init == dummy = 0
-Next == UNCHANGED dummy
 =============================================================================
